@@ -81,7 +81,12 @@ def random_ast(R: Draw, names: list[str], size: int, postfix: list[str] | None =
         return ("n", R.choice(names))
     k = R.weighted([("p", 4), ("s", 4), ("a", 3)])
     if k == "p":
-        return ("p", random_ast(R, names, size - 1, postfix), R.choice(postfix))
+        post = R.choice(postfix)
+        if R.bool(0.3):
+            # arbitrary small braced range
+            lo = R.int(0, 3)
+            post = R.choice(["{%d}" % lo, "{%d,}" % lo, "{%d,%d}" % (lo, R.int(lo, lo + 3))])
+        return ("p", random_ast(R, names, size - 1, postfix), post)
     left = R.int(0, size - 1)
     return (k, random_ast(R, names, left, postfix), random_ast(R, names, size - 1 - left, postfix))
 
